@@ -120,7 +120,27 @@ func c05SCIONWorld(r *simcore.Run) any {
 		for i := 0; i < n; i++ {
 			var pl []byte
 			kind := ""
-			switch tp.Intn(17, "akind") {
+			switch tp.Intn(18, "akind") {
+			case 17:
+				// what the server's response to another request of this session looks like (sealed
+				// for that request's identifier), with the outstanding identifier appended behind
+				// the authenticator, where nothing is authenticated
+				if !useNTS {
+					continue
+				}
+				s2c := cl.Auth.NTSKEFetcher.VerifData().S2cKey
+				pt, ok := ntsOpenRaw(p.pld, s2c)
+				if !ok {
+					continue
+				}
+				other := append([]byte(nil), uidOf(p.pld)...)
+				other[tp.Intn(len(other), "uidb")] ^= 0x40
+				resealed := ntsReseal(p.pld[:48], other, pt, s2c)
+				resealed = append(resealed, 0x01, 0x04, 0, byte(4+len(other)))
+				resealed = append(resealed, uidOf(p.pld)...)
+				kind = "nts-sealed-for-other-identifier-outstanding-one-appended"
+				pl = scRebuild(p, func(s *slayers.SCION, u *slayers.UDP, pld *[]byte) { *pld = resealed })
+				r.Probe("scion-nts-resealed")
 			case 16:
 				if !useNTS {
 					continue
@@ -181,7 +201,7 @@ func c05SCIONWorld(r *simcore.Run) any {
 					s.SetDstAddr(addr.HostIP(netip.MustParseAddr(scAtkIP)))
 				})
 			case 6, 7, 8:
-				f := tp.Intn(7, "field")
+				f := tp.Intn(8, "field")
 				pl = scRebuild(p, func(s *slayers.SCION, u *slayers.UDP, pld *[]byte) {
 					b := *pld
 					switch f {
@@ -207,6 +227,9 @@ func c05SCIONWorld(r *simcore.Run) any {
 						kind = "transmit-before-receive"
 						copy(b[40:48], b[32:40])
 						b[40] -= 1
+					case 7:
+						kind = "receive-decades-ahead-transmit-decades-back"
+						c05SpreadServerTimes(b, tp)
 					default:
 						kind = "transmit-changed"
 						b[44+tp.Intn(4, "tb")] ^= 1 << tp.Intn(8, "tbit")
